@@ -29,7 +29,7 @@ CONFIGS = {
 }
 EXPECTED_CRATES = {
     "quick": ["selium", "selium_protocol", "selium_server", "selium_std", "selium_tools"],
-    "alltargets": ["selium", "selium_protocol", "selium_server", "selium_std", "selium_tools", "selium_tests"],
+    "alltargets": ["selium", "selium_protocol", "selium_server", "selium_std", "selium_tools", "streams", "publish", "subscribe"],
     "allfeatures": ["selium", "selium_protocol", "selium_server", "selium_std", "selium_tools"],
 }
 
